@@ -5,17 +5,66 @@ import math
 RULE = ("random target spaces S (degree 0..3, non-uniform knots, repeated knots) and source spline curves C (degree 0..3, other knot vectors, "
         "scalar/vector points) on the same interval; C inside S (S refines C's space); interpolation node sets (subsets of S's knots, <= npts).  "
         "Non-trivial: non-uniform or multi-span S; distinct = distinct (S, C, nodes)."
-        " Also: the float twin of every case (numpy solves, Chebyshev quadrature) against the exact projection.")
+        " Also: receivers with positive weights W and polynomial sources C with C*W in the spline space (C in S: exact reproduction, error 0, weights kept); the float twin of every case (numpy solves, Chebyshev quadrature) against the exact projection.")
 EXPLANATION = ("L3: with the implementation's D the exact integrals <C-D, N_i> (all basis functions of S) are computed from the span polynomials "
                "(`rf.inner`), as are integral(C-D)^2 (`rf.sqdist`); orthogonality, error identity (factor 1 or 1/2), non-negativity, zero-iff and "
                "reproduction are exact comparisons; with nodes: D(z)=C(z) and the moment vector lies in the row space of the constraint matrix "
                "(exact rank test).  L2: control points and returned error vs the model's Gram/normal-equation computation.")
-ASSUMPTIONS = ["polynomial spline spaces (the rational branch of fit_curve uses inexact quadrature and is outside the statement's spline space S)"]
+ASSUMPTIONS = ["orthogonality and the error identity are judged on polynomial spline spaces (the rational branch of fit_curve uses inexact quadrature); for receivers with weights only exact reproduction of a source lying in S, error zero and kept weights are judged"]
+
+
+def run_ratrecv(ctx, case):
+    """a receiver with weights (its space S is spanned by the rational functions w_i N_i / W) and a polynomial source C with
+    C * W in the spline space: C lies in S, so the fit must return C itself, report error zero and keep the receiver's weights"""
+    rec, drv = ctx["rec"], ctx["drv"]
+    c = de(case)
+    U, P, UW, PW, nodes = c["U"], [tuple(p) for p in c["P"]], c["UW"], [tuple(p) for p in c["PW"]], c["nodes"]
+    rec.case(case, nontrivial=True)
+    rec.count("label", "rational-receiver")
+    prod = drv.call("curve.bin", "mul", list(U), [list(x) for x in P], None, list(UW), [list(x) for x in PW], None)
+    if prod[0] != "ok":
+        rec.count("skip", "product-space")
+        return
+    S = list(model_curve_state(prod[1])[0])
+    wfit = drv.call("curve.fitcurve", S, None, None, list(UW), [list(x) for x in PW], None, None)
+    if wfit[0] != "ok" or wfit[1][1] != 0:
+        rec.count("skip", "weights-in-S")
+        return
+    WA = [q[0] for q in model_curve_state(wfit[1][0])[1]]
+    if any(w <= 0 for w in WA):
+        rec.count("skip", "weights-positive")
+        return
+    src = make_curve(U, P, None)
+    s0 = curve_state(src)
+    dst = Curve(list(S))
+    dst.weights = list(WA)
+    r = impl(lambda: dst.fit_curve(src) if nodes is None else dst.fit_curve(src, tuple(nodes)))
+    l3(rec, "rational-receiver-reproduction")
+    if curve_state(src) != s0:
+        rec.violation("fit_curve modified the source curve", case)
+    if r[0] != "ok":
+        rec.violation("fit_curve raised for a receiver with weights", case, observed=r[1])
+        return
+    if isinstance(r[1], np.ndarray) and r[1].size != 1:
+        rec.violation("fit_curve returned an array instead of one error value", case, observed=str(r[1])[:200])
+        return
+    err = frac(r[1]) if not isinstance(r[1], np.ndarray) else frac(r[1].item())
+    D = curve_state(dst)
+    if D[2] is None or [frac(w) for w in D[2]] != WA:
+        rec.violation("fit_curve of a polynomial source replaced the weights of the receiving curve (its space S)", case,
+                      observed=ser(D[2]), expected=ser(WA))
+        return
+    v = drv.call("rf.eq", *curve_args(*s0), *curve_args(*D))
+    if v != ("ok", "yes") or err != 0:
+        rec.violation("C lies in the (rational) space S of the receiver but D != C or error != 0", case, oracle=ser(v), error=str(err),
+                      result=ser(D))
 
 
 def run_case(ctx, case):
     rec, drv = ctx["rec"], ctx["drv"]
     c = de(case)
+    if c.get("kind") == "ratrecv":
+        return run_ratrecv(ctx, case)
     S, U, P, nodes = c["S"], c["U"], [tuple(p) for p in c["P"]], c["nodes"]
     ps, ns, _ = kv_info(S)
     rec.case(case, nontrivial=len(set(S)) > 2)
@@ -112,6 +161,17 @@ def run(ctx):
         S = rand_kv(rng, p=p1, nintmax=1, interval=interval)
         U = rand_kv(rng, p=p2, nintmax=1, interval=interval)
         run_case(ctx, ser(dict(kind="fit", label="highdeg", S=S, U=U, P=rand_points(rng, kv_info(U)[1], 1), nodes=None)))
+    for i in range(budget(ctx, 10, 120)):
+        # receivers with weights: W a positive spline of degree 1..2, C a polynomial source, S the space of the product C * W
+        interval = rand_interval(rng)
+        UW = rand_kv(rng, p=rng.randint(1, 2), nintmax=1, interval=interval)
+        PW = [(F(rng.randint(1, 9), rng.randint(1, 4)),) for _ in range(kv_info(UW)[1])]
+        U = rand_kv(rng, p=rng.randint(0, 2), nintmax=2, interval=interval)
+        dim = rng.choice([1, 2])
+        nodes = None
+        if i % 3 == 2:
+            nodes = [interval[0], interval[1]] if i % 2 else [interval[0]]
+        run_case(ctx, ser(dict(kind="ratrecv", U=U, P=rand_points(rng, kv_info(U)[1], dim), UW=UW, PW=PW, nodes=nodes)))
     for i in range(budget(ctx, 50, 700)):
         interval = rand_interval(rng)
         label = rng.choice(["generic", "generic", "inside", "nodes", "nodes"])
